@@ -177,7 +177,7 @@ theorem strWith_spec (s : List (Option Nat)) (off : Int) (holes : Nat) (h : (Pla
     obtain ⟨h0, hl, hg⟩ := h1
     obtain ⟨hidx, _⟩ := seqIndex_eq (rfl : seqIndex s.length off ix = _) h0
     refine ⟨_, rfl, h, ?_⟩
-    refine lift _ _ _ ?_
+    refine lift s off holes ?_
     intro j y
     constructor
     · exact fun hm => Or.inr hm
@@ -194,7 +194,7 @@ theorem strWith_spec (s : List (Option Nat)) (off : Int) (holes : Nat) (h : (Pla
         rcases List.mem_append.1 hd with hd | hd
         · exact h.2.2 d hd
         · simp only [List.mem_singleton, Option.some.injEq] at hd; subst hd; exact hc
-      · apply lift
+      · refine lift (s ++ [some c]) off holes ?_
         intro j y
         rw [kden_append]
         simp only [kden, List.mem_append, List.mem_singleton, Prod.mk.injEq]
@@ -210,7 +210,7 @@ theorem strWith_spec (s : List (Option Nat)) (off : Int) (holes : Nat) (h : (Pla
           rcases List.mem_cons.1 hd with hd | hd
           · simp only [Option.some.injEq] at hd; subst hd; exact hc
           · exact h.2.2 d hd
-        · apply lift
+        · refine lift (some c :: s) (off - 1) holes ?_
           intro j y
           simp only [kden, List.mem_cons, Prod.mk.injEq]
           have : off - 1 + 1 = off := by omega
@@ -281,3 +281,328 @@ theorem strWith_spec (s : List (Option Nat)) (off : Int) (holes : Nat) (h : (Pla
           rw [w2]
           simp only [List.mem_append, List.mem_singleton]
           exact Or.comm
+
+
+/-! ## Bytes.with -/
+
+theorem kcount_map_some (l : List Nat) : kcount (l.map some) = l.length := by
+  induction l with
+  | nil => rfl
+  | cons y t iht => simp [kcount, iht]
+
+theorem bytesWith_spec (b : List Nat) (off : Int) (h : (Plain.bytes b off).WF)
+    (ix : Int) (x : Nat) (hx : (x : Int) ≤ 255)
+    (hadm : off - 1 ≤ ix ∧ ix ≤ off + (b.length : Int) ∧ ∀ d, (ix, d) ∈ kden (b.map some) off → d = x) :
+    ∃ r, bytesWith b off ix x = .ok r ∧ r.WF ∧
+      ∀ v, v ∈ r.members ↔ v = byteV ix x ∨ v ∈ (Plain.bytes b off).members := by
+  have lift : ∀ (b' : List Nat) (off' : Int),
+      (∀ j y, (j, y) ∈ kden (b'.map some) off' ↔ (j = ix ∧ y = x) ∨ (j, y) ∈ kden (b.map some) off) →
+      ∀ v, v ∈ (Plain.bytes b' off').members ↔ v = byteV ix x ∨ v ∈ (Plain.bytes b off).members := by
+    intro b' off' hk v
+    rw [mem_bytes_members', mem_bytes_members']
+    constructor
+    · rintro ⟨j, y, rfl, hp⟩
+      rcases (hk j y).1 hp with ⟨rfl, rfl⟩ | h1
+      · exact Or.inl rfl
+      · exact Or.inr ⟨j, y, rfl, h1⟩
+    · rintro (rfl | ⟨j, y, rfl, hp⟩)
+      · exact ⟨ix, x, rfl, (hk ix x).2 (Or.inl ⟨rfl, rfl⟩)⟩
+      · exact ⟨j, y, rfl, (hk j y).2 (Or.inr hp)⟩
+  obtain ⟨hlo, hhi, hsame⟩ := hadm
+  unfold bytesWith
+  simp only
+  split
+  · rename_i h1
+    obtain ⟨h0, hl, hg⟩ := h1
+    obtain ⟨hidx, _⟩ := seqIndex_eq (rfl : seqIndex b.length off ix = _) h0
+    refine ⟨_, rfl, h, ?_⟩
+    refine lift b off ?_
+    intro j y
+    constructor
+    · exact fun hm => Or.inr hm
+    · rintro (⟨rfl, rfl⟩ | hm)
+      · rw [mem_kden, kget_map_some]; exact ⟨by omega, by rw [hidx]; exact hg⟩
+      · exact hm
+  · split
+    · rename_i _ h2
+      obtain ⟨hidx, _⟩ := seqIndex_eq h2 (by omega)
+      refine ⟨_, rfl, ⟨by simp, ?_⟩, ?_⟩
+      · intro d hd
+        rcases List.mem_append.1 hd with hd | hd
+        · exact h.2 d hd
+        · simp only [List.mem_singleton] at hd; subst hd; exact hx
+      · refine lift (b ++ [x]) off ?_
+        intro j y
+        rw [List.map_append, kden_append]
+        simp only [List.map_cons, List.map_nil, kden, List.mem_append, List.mem_singleton, Prod.mk.injEq,
+          List.length_map]
+        have : off + (b.length : Int) = ix := by omega
+        rw [this]
+        exact Or.comm
+    · split
+      · rename_i _ _ h3
+        refine ⟨_, rfl, ⟨by simp, ?_⟩, ?_⟩
+        · intro d hd
+          rcases List.mem_cons.1 hd with hd | hd
+          · subst hd; exact hx
+          · exact h.2 d hd
+        · refine lift (x :: b) (off - 1) ?_
+          intro j y
+          simp only [List.map_cons, kden, List.mem_cons, Prod.mk.injEq]
+          have : off - 1 + 1 = off := by omega
+          rw [this, h3]
+      · rename_i n1 n2 n3
+        exfalso
+        -- the index is inside the array and holds another byte, or lies beyond an end
+        have hin : 0 ≤ ix - off ∧ ix - off < b.length := by
+          refine ⟨by omega, ?_⟩
+          apply Classical.byContradiction
+          intro hn
+          have he : ix - off = b.length := by omega
+          exact n2 (by rw [seqIndex_of_range b.length off ix (by omega) (by omega)]; exact he)
+        have hidx := seqIndex_of_range b.length off ix hin.1 (by omega)
+        have hlt : (ix - off).toNat < b.length := by omega
+        have hm : (ix, b[(ix - off).toNat]) ∈ kden (b.map some) off := by
+          rw [mem_kden, kget_map_some]
+          exact ⟨by omega, List.getElem?_eq_getElem hlt⟩
+        have := hsame _ hm
+        apply n1
+        rw [hidx]
+        exact ⟨hin.1, hin.2, by rw [List.getElem?_eq_getElem hlt, this]⟩
+
+/-! ## Array.withItem -/
+
+theorem arrWithItem_spec (vs : List (Option V)) (off : Int) (count : Nat) (h : (Plain.arr vs off count).WF)
+    (ix : Int) (item : V) (hadm : ∀ d, (ix, d) ∈ kden vs off → d = item) :
+    ∃ r, arrWithItem vs off count ix item = .ok r ∧ r.WF ∧
+      ∀ v, v ∈ r.members ↔ v = itemV ix item ∨ v ∈ (Plain.arr vs off count).members := by
+  have hcount : count = kcount vs := h
+  have lift : ∀ (vs' : List (Option V)) (off' : Int) (count' : Nat),
+      (∀ j y, (j, y) ∈ kden vs' off' ↔ (j = ix ∧ y = item) ∨ (j, y) ∈ kden vs off) →
+      ∀ v, v ∈ (Plain.arr vs' off' count').members ↔ v = itemV ix item ∨ v ∈ (Plain.arr vs off count).members := by
+    intro vs' off' count' hk v
+    rw [mem_arr_members', mem_arr_members']
+    constructor
+    · rintro ⟨j, y, rfl, hp⟩
+      rcases (hk j y).1 hp with ⟨rfl, rfl⟩ | h1
+      · exact Or.inl rfl
+      · exact Or.inr ⟨j, y, rfl, h1⟩
+    · rintro (rfl | ⟨j, y, rfl, hp⟩)
+      · exact ⟨ix, item, rfl, (hk ix item).2 (Or.inl ⟨rfl, rfl⟩)⟩
+      · exact ⟨j, y, rfl, (hk j y).2 (Or.inr hp)⟩
+  unfold arrWithItem
+  simp only
+  split
+  · rename_i h1
+    refine ⟨_, rfl, ?_, ?_⟩
+    · show count + 1 = kcount (some item :: (List.replicate ((-(ix - off)).toNat - 1) none ++ vs))
+      simp only [kcount, kcount_append, kcount_replicate_none]
+      omega
+    · refine lift _ _ (count + 1) ?_
+      intro j y
+      simp only [kden, List.mem_cons, Prod.mk.injEq, kden_append, kden_replicate_none, List.nil_append,
+        List.length_replicate]
+      have e1 : off + (ix - off) = ix := by omega
+      have e2 : ix + 1 + (((-(ix - off)).toNat - 1 : Nat) : Int) = off := by omega
+      rw [e1, e2]
+  · split
+    · rename_i _ h2
+      refine ⟨_, rfl, ?_, ?_⟩
+      · show count + 1 = kcount (vs ++ List.replicate ((ix - off).toNat - vs.length) none ++ [some item])
+        simp only [kcount_append, kcount_replicate_none, kcount]
+        omega
+      · refine lift _ _ (count + 1) ?_
+        intro j y
+        simp only [kden_append, kden_replicate_none, kden, List.append_nil, List.mem_append, List.mem_singleton,
+          Prod.mk.injEq, List.length_append, List.length_replicate]
+        have e : off + (((vs.length + ((ix - off).toNat - vs.length) : Nat)) : Int) = ix := by omega
+        rw [e]
+        exact Or.comm
+    · rename_i n1 n2
+      have hlt : (ix - off).toNat < vs.length := by omega
+      split
+      · rename_i h3
+        refine ⟨_, rfl, h, ?_⟩
+        refine lift vs off count ?_
+        intro j y
+        constructor
+        · exact fun hm => Or.inr hm
+        · rintro (⟨rfl, rfl⟩ | hm)
+          · rw [mem_kden]; exact ⟨by omega, h3⟩
+          · exact hm
+      · split
+        · rename_i n3 h4
+          exfalso
+          obtain ⟨d, hd⟩ := Option.isSome_iff_exists.1 h4
+          have hm : (ix, d) ∈ kden vs off := by rw [mem_kden]; exact ⟨by omega, hd⟩
+          have := hadm d hm
+          subst this
+          exact n3 hd
+        · rename_i n3 n4
+          have hnone : kget vs (ix - off).toNat = none := by
+            cases hk : kget vs (ix - off).toNat with
+            | none => rfl
+            | some d => rw [hk] at n4; simp at n4
+          refine ⟨_, rfl, ?_, ?_⟩
+          · show count + 1 = kcount (setAt vs (ix - off).toNat (some item))
+            rw [kcount_setAt_hole vs _ item hlt hnone]; omega
+          · refine lift _ off (count + 1) ?_
+            intro j y
+            rw [mem_kden_setAt vs off _ item hlt hnone]
+            have e : off + (((ix - off).toNat : Nat) : Int) = ix := by omega
+            rw [e]
+            exact Or.comm
+
+
+/-! ## the interface contract: with -/
+
+theorem Plain.with_spec (p : Plain) (h : p.WF) (hne : p = .empty ∨ p.members ≠ []) (v : V) (hadm : WithAdm p v) :
+    ∃ r, p.with_ v = .ok r ∧ r.WF ∧ ∀ x, x ∈ r.members ↔ x = v ∨ x ∈ p.members := by
+  cases p with
+  | empty =>
+    simp only [Plain.with_]
+    by_cases hv : v = .tup []
+    · subst hv
+      simp only [if_true]
+      exact ⟨_, rfl, trivial, by simp [Rep.members, Plain.members]⟩
+    · simp only [hv, if_false]
+      obtain ⟨w1, w2, _, _⟩ := single_spec v
+      refine ⟨_, rfl, w1, ?_⟩
+      intro x
+      show x ∈ (single v).members ↔ _
+      rw [w2]
+      simp [Plain.members]
+  | true_ =>
+    simp only [Plain.with_]
+    by_cases hv : v = .tup []
+    · subst hv
+      simp only [if_true]
+      exact ⟨_, rfl, trivial, by simp [Rep.members, Plain.members]⟩
+    · simp only [hv, if_false]
+      obtain ⟨w1, w2⟩ := finish_spec _ (finishAdm_unit_cons v)
+      refine ⟨_, rfl, w1, ?_⟩
+      intro x
+      rw [w2]
+      simp only [List.mem_cons, List.not_mem_nil, or_false, Plain.members, List.mem_singleton]
+      exact Or.comm
+  | generic xs =>
+    simp only [Plain.with_]
+    by_cases hb : bucketOf v = .generic
+    · simp only [hb, if_true]
+      refine ⟨_, rfl, ⟨FinSet.sorted_ins v xs h.1, ?_, ?_, ?_⟩, ?_⟩
+      · intro hc
+        have : v ∈ FinSet.ins v xs := (FinSet.mem_ins v v xs).2 (Or.inl rfl)
+        rw [hc] at this; cases this
+      · intro hc
+        -- every member of xs would be (): then xs = [()]
+        have hall : ∀ x, x ∈ xs → x = .tup [] := by
+          intro x hx
+          have : x ∈ FinSet.ins v xs := (FinSet.mem_ins v x xs).2 (Or.inr hx)
+          rw [hc] at this
+          simpa using this
+        obtain ⟨hs, hn1, hn2, _⟩ := h
+        cases xs with
+        | nil => exact hn1 rfl
+        | cons a r =>
+          have ha := hall a (by simp)
+          subst ha
+          cases r with
+          | nil => exact hn2 rfl
+          | cons b t =>
+            have hb' := hall b (by simp)
+            subst hb'
+            have := (List.pairwise_cons.1 hs).1 (.tup []) (by simp)
+            exact V.cmp_lt_irrefl _ this
+      · intro x hx
+        rcases (FinSet.mem_ins v x xs).1 hx with rfl | hx
+        · exact hb
+        · exact h.2.2.2 x hx
+      · intro x
+        exact FinSet.mem_ins v x xs
+    · simp only [hb, if_false]
+      exact toUnionSetWithItem_spec _ h (by simpa [Plain.members] using h.2.1) v hb
+  | str s off holes =>
+    simp only [Plain.with_]
+    cases hc : asChar v with
+    | none =>
+      simp only
+      apply toUnionSetWithItem_spec _ h (by rcases hne with h1 | h1; cases h1; exact h1) v
+      intro hb
+      have := (bucketOf_strChar_iff v).1 hb
+      rw [hc] at this; cases this
+    | some q =>
+      obtain ⟨ix, c⟩ := q
+      obtain ⟨rfl, hcr⟩ := (asChar_eq_some v ix c).1 hc
+      exact strWith_spec s off holes h ix c hcr (hadm ix c hc)
+  | bytes b off =>
+    simp only [Plain.with_]
+    cases hc : asByte v with
+    | none =>
+      simp only
+      apply toUnionSetWithItem_spec _ h (by rcases hne with h1 | h1; cases h1; exact h1) v
+      intro hb
+      have := (bucketOf_bytesByte_iff v).1 hb
+      rw [hc] at this; cases this
+    | some q =>
+      obtain ⟨ix, c⟩ := q
+      obtain ⟨rfl, hcr⟩ := (asByte_eq_some v ix c).1 hc
+      exact bytesWith_spec b off h ix c hcr (hadm ix c hc)
+  | arr vs off count =>
+    simp only [Plain.with_]
+    cases hc : asItem v with
+    | none =>
+      simp only
+      apply toUnionSetWithItem_spec _ h (by rcases hne with h1 | h1; cases h1; exact h1) v
+      intro hb
+      have := (bucketOf_arrItem_iff v).1 hb
+      rw [hc] at this; cases this
+    | some q =>
+      obtain ⟨ix, c⟩ := q
+      have := (asItem_eq_some v ix c).1 hc
+      subst this
+      exact arrWithItem_spec vs off count h ix c (hadm ix c hc)
+  | dict m =>
+    simp only [Plain.with_, dictWith]
+    cases hc : asEntry v with
+    | none =>
+      simp only
+      apply toUnionSetWithItem_spec _ h (by rcases hne with h1 | h1; cases h1; exact h1) v
+      intro hb
+      have := (bucketOf_dictEntry_iff v).1 hb
+      rw [hc] at this; cases this
+    | some q =>
+      obtain ⟨k, x⟩ := q
+      have := (asEntry_eq_some v k x).1 hc
+      subst this
+      obtain ⟨d1, d2, d3⟩ := dictAdd_spec m ⟨h.2.1, h.2.2⟩ k x
+      exact ⟨_, rfl, ⟨d2, d1.1, d1.2⟩, d3⟩
+  | rel names rows =>
+    have hne' : (Plain.rel names rows).members ≠ [] := by simpa [Plain.members] using h.2.1
+    simp only [Plain.with_]
+    cases v with
+    | num n =>
+      exact toUnionSetWithItem_spec _ h hne' _ (by simp [bucketOf, Plain.bucket])
+    | set xs =>
+      exact toUnionSetWithItem_spec _ h hne' _ (by simp [bucketOf, Plain.bucket])
+    | tup as =>
+      simp only
+      split
+      · rename_i hn
+        have hb := hadm as rfl hn
+        refine ⟨_, rfl, ⟨FinSet.sorted_ins _ rows h.1, ?_, ?_⟩, ?_⟩
+        · intro hc
+          have : V.tup as ∈ FinSet.ins (.tup as) rows := (FinSet.mem_ins _ _ rows).2 (Or.inl rfl)
+          rw [hc] at this; cases this
+        · intro x hx
+          rcases (FinSet.mem_ins _ x rows).1 hx with rfl | hx
+          · exact hb
+          · exact h.2.2 x hx
+        · intro x
+          exact FinSet.mem_ins _ x rows
+      · rename_i hn
+        apply toUnionSetWithItem_spec _ h hne'
+        intro hb
+        obtain ⟨as', he, hn'⟩ := bucketOf_rel hb
+        simp only [V.tup.injEq] at he
+        subst he
+        exact hn hn'
